@@ -250,8 +250,11 @@ func (c *FnCtx) execInstr(b *ssa.BasicBlock, in ssa.Instruction, st *State, reac
 		ml := c.heap(st, "MLen", arraySort(SInt, SInt))
 		was := sel(sel(has, m), k)
 		st.heaps["MLen"] = store(ml, m, ite(was, sel(ml, m), add(sel(ml, m), intLit(1))))
-		st.heaps[hk] = store(has, m, store(sel(has, m), k, tTrue))
-		st.heaps[vk] = store(vals, m, store(sel(vals, m), k, v))
+		newHasArr := c.named("mh", store(sel(has, m), k, tTrue))
+		newValArr := c.named("mv", store(sel(vals, m), k, v))
+		c.mapCountFact(mt, sel(has, m), sel(vals, m), newHasArr, newValArr, k, &v)
+		st.heaps[hk] = store(has, m, newHasArr)
+		st.heaps[vk] = store(vals, m, newValArr)
 		return true
 	case *ssa.Range:
 		c.execRange(x, st)
